@@ -26,12 +26,29 @@
 (* Environments are table identities (a module instance keeps the             *)
 (* environment its chunk ran in; require() runs the chunk in the environment  *)
 (* on top of the stack), hence the little heap.                               *)
+(*                                                                          *)
+(* NESTED PROGRAMS (round 7): one top-level invocation of a driver module     *)
+(* (Module:Nest) runs a sequence of steps INSIDE that one invocation: nested  *)
+(* invocations (reached through frame:preprocess, through a lazily expanded   *)
+(* argument, through frame:expandTemplate) that write / read a global, a      *)
+(* field of string.* / table.*, module-level and require()d state; reads and  *)
+(* writes of the same cells by the running invocation itself; nested          *)
+(* invocations of a second driver (Module:Nest2) running a sub-program.       *)
+(* Isolation BETWEEN a nested invocation and its caller and between SIBLING   *)
+(* nested invocations is what ProgInv / DemandedProg are about.               *)
 EXTENDS Naturals, Sequences, FiniteSets, TLC
 
 CONSTANT Dev   \* "EnvKeptOnAbort": an invocation that ends in a host-side exception leaves its environment on the stack
                \* "LoadDataTableMutableWithinPage": the table handed out by mw.loadData / mw.loadJsonData is the cached
                \*    object itself, writable, and the cache lives until start_page (as-is); ideal: what one invocation
                \*    writes into it is not there for the next top-level invocation (read-only table or own copy)
+               \* "NestedInvokeSharesLoadedModules": a NESTED invocation finds the page modules loaded by its caller and
+               \*    by earlier nested invocations of the same top-level call in package.loaded (the reset happens for
+               \*    top-level invocations only; as-is): module-level state, and - through the environment the cached
+               \*    chunk ran in - globals and library patches of one nested invocation reach a later sibling that
+               \*    uses the same module; ideal: every invocation gets its own instances of the page modules
+               \* "NestedSharesCallerEnv": a nested invocation runs in the environment on top of lua_env_stack itself
+               \*    instead of a clone of it (class of the seeded change of round 7)
 
 \* ---- invocation kinds (the harness has one concrete #invoke per kind) ----
 Counter == {"bump", "bump2", "peek"}        \* Module:Ctr, module-level `local n = 0`
@@ -42,6 +59,8 @@ Probes  == Counter \cup {"reqbump",         \* Module:Req: require("Module:Ctr")
 \* Module:LD: ldset / ljset try to write field x of the table from mw.loadData("Module:LDdata") / mw.loadJsonData("Module:LJ.json")
 \* (inside pcall: a read-only table is as good as a private copy) and return the value read BEFORE; ldget / ljget read it
 LoadData == {"ldset", "ldget", "ljset", "ljget"}
+\* kinds used only INSIDE nested programs: Module:Tab patches / reads table.leaked, Module:V reads all three cells
+NestOnly == {"tset", "tget", "view"}
 InBand  == {"nofn", "err", "loaderr"}       \* Lua-side failures returned as ok = false
 Raising == {"nomod", "nilmod", "synmod", "badutf", "timeout"}   \* end in an exception on the Python side
 Simple  == Probes \cup LoadData \cup InBand \cup Raising
@@ -56,13 +75,13 @@ Kinds == Simple \cup Nested \cup {"page"}   \* "page": the caller begins a new p
 Disturbing == InBand \cup Raising \cup Nested
 
 \* page modules that exist, compile and return a table
-Mods == {"Ctr", "Req", "G", "R", "Str", "F", "N", "LD"}
+Mods == {"Ctr", "Req", "G", "R", "Str", "F", "N", "LD", "Tab", "V", "Nest", "Nest2"}
 ModOf(k) == CASE k \in Counter -> "Ctr" [] k = "reqbump" -> "Req" [] k \in {"gset", "gget"} -> "G" [] k = "rget" -> "R"
               [] k \in {"sset", "sget"} -> "Str" [] k \in LoadData -> "LD" [] k \in {"nofn", "err", "badutf", "timeout"} -> "F"
               [] k = "nomod" -> "Nomod" [] k = "nilmod" -> "Nil" [] k = "synmod" -> "Syn" [] k = "loaderr" -> "Bad"
-              [] k \in Nested -> "N"
+              [] k \in Nested -> "N" [] k \in {"tset", "tget"} -> "Tab" [] k = "view" -> "V"
 
-Env0 == [g |-> "nil", s |-> "nil"]                       \* _G after _lua_reset_env: no MARK, string.leaked = nil
+Env0 == [g |-> "nil", s |-> "nil", t |-> "nil"]          \* _G after _lua_reset_env: no MARK, string.leaked = table.leaked = nil
 NoInst == [on |-> FALSE, n |-> 0, env |-> 0]
 Data0 == [ld |-> "init", lj |-> "init"]                \* field x of the two data tables as their pages define it
 S0 == [heap |-> <<>>, stk |-> <<>>, loaded |-> [m \in Mods |-> NoInst], data |-> Data0]
@@ -73,7 +92,9 @@ Reset(s) == IF s.stk = <<>>
             THEN [s EXCEPT !.loaded = [m \in Mods |-> NoInst],
                            !.data = IF "LoadDataTableMutableWithinPage" \in Dev THEN @ ELSE Data0]
             ELSE s
-Push(s)  == [s EXCEPT !.heap = Append(@, TopEnv(s)), !.stk = Append(@, Len(s.heap) + 1)]
+Push(s)  == IF s.stk # <<>> /\ "NestedSharesCallerEnv" \in Dev
+            THEN [s EXCEPT !.stk = Append(@, TopIdx(s))]             \* no clone: the caller's own environment again
+            ELSE [s EXCEPT !.heap = Append(@, TopEnv(s)), !.stk = Append(@, Len(s.heap) + 1)]
 \* entry = length of the stack when call_lua_sandbox was entered: everything pushed since is removed
 Leave(s, entry, aborted) ==
   IF aborted /\ "EnvKeptOnAbort" \in Dev THEN s
@@ -106,14 +127,20 @@ Body(s, k) ==
          [] k = "ldget" -> R(s1, "val", s1.data.ld, FALSE)
          [] k = "ljset" -> R([s1 EXCEPT !.data.lj = "set"], "val", s1.data.lj, FALSE)
          [] k = "ljget" -> R(s1, "val", s1.data.lj, FALSE)
+         [] k = "tset" -> R([s1 EXCEPT !.heap[inst.env].t = "set"], "val", s1.heap[inst.env].t, FALSE)
+         [] k = "tget" -> R(s1, "val", s1.heap[inst.env].t, FALSE)
+         [] k = "view" -> R(s1, "val", <<s1.heap[inst.env].g, s1.heap[inst.env].s, s1.heap[inst.env].t>>, FALSE)
 
 Out(k, res, v, ires, iv) == [k |-> k, res |-> res, v |-> v, ires |-> ires, iv |-> iv]
 InvS(s, k) == LET b == Body(Push(Reset(s)), k) IN [s |-> Leave(b.s, Len(s.stk), b.ab), res |-> b.res, v |-> b.v]
+\* package.loaded as a NESTED invocation finds it / as its caller finds it again afterwards
+ForNested(s) == IF "NestedInvokeSharesLoadedModules" \in Dev THEN s ELSE [s EXCEPT !.loaded = [m \in Mods |-> NoInst]]
+BackIn(s, caller) == IF "NestedInvokeSharesLoadedModules" \in Dev THEN s ELSE [s EXCEPT !.loaded = caller.loaded]
 InvN(s, k) ==
   LET s1 == Load(Push(Reset(s)), "N")
       s2 == [s1 EXCEPT !.heap[s1.loaded["N"].env].g = "set"]            \* MARK = "set" in the module's environment
-      i == InvS(s2, Inner(k))                                            \* nested: the stack is not empty, no reset
-  IN [s |-> Leave(i.s, Len(s.stk), FALSE), o |-> Out(k, "val", "", i.res, i.v)]
+      i == InvS(ForNested(s2), Inner(k))                                 \* nested: the stack is not empty, no reset
+  IN [s |-> Leave(BackIn(i.s, s2), Len(s.stk), FALSE), o |-> Out(k, "val", "", i.res, i.v)]
 Invoke(s, k) ==
   IF k = "page" THEN [s |-> [s EXCEPT !.stk = <<>>, !.data = Data0], o |-> Out(k, "page", "", "none", "")]
   ELSE IF k \in Nested THEN InvN(s, k)
@@ -122,10 +149,72 @@ Invoke(s, k) ==
 RECURSIVE Run(_, _, _)
 Run(h, i, s) == IF i > Len(h) THEN <<>> ELSE LET r == Invoke(s, h[i]) IN <<r.o>> \o Run(h, i + 1, r.s)
 Outcomes(h) == Run(h, 1, S0)
+RECURSIVE RunS(_, _, _, _)      \* the same, also giving the state reached
+RunS(h, i, s, acc) == IF i > Len(h) THEN [s |-> s, o |-> acc] ELSE LET r == Invoke(s, h[i]) IN RunS(h, i + 1, r.s, Append(acc, r.o))
+
+\* ---- nested programs: the steps of ONE invocation of a driver module ----
+\* step = [via, k, sub]: via "own": the running invocation itself reads all three cells (k = "O") or sets one of
+\*   them (k = "Wg" / "Ws" / "Wt") to "own" (Module:Nest) / "sub" (Module:Nest2);  via "P" / "A" / "T": a nested invocation reached through
+\*   frame:preprocess / an argument expanded when the function reads it / frame:expandTemplate, of the simple
+\*   kind k, or (k = "prog") of the second driver Module:Nest2 running the steps sub.
+\* The three ways are one and the same transition here: that the outcome does not depend on the way is part of
+\* what the conformance check establishes (the harness concretises each way differently).
+NestWriters == {"gset", "sset", "tset", "bump", "reqbump"}
+NestReaders == {"gget", "sget", "tget", "view", "peek"}
+NestKinds == NestWriters \cup NestReaders
+StepOut(via, k, vals, sub) == [via |-> via, k |-> k, vals |-> vals, sub |-> sub]
+ValsOf(k, v) == IF k = "view" THEN v ELSE <<v>>
+CellsAt(s, e) == <<s.heap[e].g, s.heap[e].s, s.heap[e].t>>
+OwnWrite(s, e, k, wv) == CASE k = "Wg" -> [s EXCEPT !.heap[e].g = wv] [] k = "Ws" -> [s EXCEPT !.heap[e].s = wv]
+                           [] k = "Wt" -> [s EXCEPT !.heap[e].t = wv]
+WrittenBy(me) == IF me = "Nest" THEN "own" ELSE "sub"
+RECURSIVE ProgInv(_, _, _), ProgSteps(_, _, _, _, _, _)
+\* an invocation of the driver module me running prog, entered in state s (top level: empty stack, reset)
+ProgInv(s, me, prog) ==
+  LET s1 == Load(Push(Reset(s)), me)
+      r == ProgSteps(s1, s1.loaded[me].env, WrittenBy(me), prog, 1, <<>>)
+  IN [s |-> Leave(r.s, Len(s.stk), FALSE), o |-> r.o]
+ProgSteps(s, e, wv, prog, i, acc) ==
+  IF i > Len(prog) THEN [s |-> s, o |-> acc]
+  ELSE LET st == prog[i] IN
+    IF st.via = "own" THEN
+      IF st.k = "O" THEN ProgSteps(s, e, wv, prog, i + 1, Append(acc, StepOut("own", "O", CellsAt(s, e), <<>>)))
+      ELSE ProgSteps(OwnWrite(s, e, st.k, wv), e, wv, prog, i + 1, Append(acc, StepOut("own", st.k, <<>>, <<>>)))
+    ELSE IF st.k = "prog" THEN
+      LET r == ProgInv(ForNested(s), "Nest2", st.sub)
+      IN ProgSteps(BackIn(r.s, s), e, wv, prog, i + 1, Append(acc, StepOut(st.via, "prog", <<>>, r.o)))
+    ELSE
+      LET r == InvS(ForNested(s), st.k)
+      IN ProgSteps(BackIn(r.s, s), e, wv, prog, i + 1, Append(acc, StepOut(st.via, st.k, ValsOf(st.k, r.v), <<>>)))
+\* a nest case: top-level invocations pre, then the top-level invocation of Module:Nest running prog, then post
+CaseOutcomes(c) ==
+  LET a == RunS(c.pre, 1, S0, <<>>)
+      p == ProgInv(a.s, "Nest", c.prog)
+      b == RunS(c.post, 1, p.s, <<>>)
+  IN [pre |-> a.o, prog |-> p.o, post |-> b.o]
 
 \* ---- declarative reference: what the statement demands ----
 \* every top-level invocation gives what it gives as the first invocation of a fresh context
 Solo(k) == Invoke(S0, k).o
 Demanded(h) == [i \in 1..Len(h) |-> Solo(h[i])]
 MeetsDemand(h) == Outcomes(h) = Demanded(h)
+\* nested programs: what a nested invocation writes (globals, library tables, module-level state, state of modules
+\* it require()s) is there neither for the rest of the enclosing invocation nor for a later nested invocation.
+\* c = the three cells as the running invocation ITSELF set them; a nested invocation starts from a copy of them
+\* (that a nested invocation sees what its caller set is how the code is built - the statement does not ask for
+\* it; the harness reports a difference there as drift) and from fresh module instances.
+DemNested(c, k) == CASE k \in {"gset", "gget"} -> <<c.g>> [] k \in {"sset", "sget"} -> <<c.s>> [] k \in {"tset", "tget"} -> <<c.t>>
+                     [] k = "view" -> <<c.g, c.s, c.t>> [] k \in {"bump", "reqbump"} -> <<"1">> [] k = "peek" -> <<"0">>
+RECURSIVE DemSteps(_, _, _, _, _)
+DemSteps(c, wv, prog, i, acc) ==
+  IF i > Len(prog) THEN acc
+  ELSE LET st == prog[i] IN
+    IF st.via = "own" THEN
+      IF st.k = "O" THEN DemSteps(c, wv, prog, i + 1, Append(acc, StepOut("own", "O", <<c.g, c.s, c.t>>, <<>>)))
+      ELSE DemSteps(CASE st.k = "Wg" -> [c EXCEPT !.g = wv] [] st.k = "Ws" -> [c EXCEPT !.s = wv] [] st.k = "Wt" -> [c EXCEPT !.t = wv],
+                    wv, prog, i + 1, Append(acc, StepOut("own", st.k, <<>>, <<>>)))
+    ELSE IF st.k = "prog" THEN DemSteps(c, wv, prog, i + 1, Append(acc, StepOut(st.via, "prog", <<>>, DemSteps(c, WrittenBy("Nest2"), st.sub, 1, <<>>))))
+    ELSE DemSteps(c, wv, prog, i + 1, Append(acc, StepOut(st.via, st.k, DemNested(c, st.k), <<>>)))
+DemandedProg(prog) == DemSteps(Env0, WrittenBy("Nest"), prog, 1, <<>>)
+CaseMeetsDemand(c) == CaseOutcomes(c) = [pre |-> Demanded(c.pre), prog |-> DemandedProg(c.prog), post |-> Demanded(c.post)]
 =============================================================================
